@@ -7,7 +7,7 @@
   (monic normalisation, textbook step-down); `stepUp ks` = Levinson order updates from the
   reflection coefficients `ks` (first first).
 -/
-import ALV.Lemmas.C11Coded
+import ALV.Lemmas.C11Order2
 import ALV.Common.Audit
 
 set_option linter.unusedSectionVars false
@@ -148,7 +148,65 @@ theorem stable_scale_fails_as_coded :
   rw [h1, h2] at this
   exact Bool.false_ne_true this
 
+/-! ### 5. Schur–Cohn: the verdict against the pole locations (real coefficients, complex poles)
+
+The poles of `num / den` (den₀ ≠ 0) are the roots of `Σ den_i z^(n-i)` = `evalC den.reverse`. -/
+
+/-- **C11.5a** every order: a `true` verdict of the specification implies that every pole lies
+strictly inside the unit circle (critical and unstable filters get `false`). -/
+theorem schur_cohn_sufficient (den t : List ℝ) (g : ℝ) (hg : g ≠ 0) (hs : stripZeros den = g :: t)
+    (h : parcorStableSpec den = true) :
+    ∀ z : ℂ, evalC den.reverse z = 0 → Complex.normSq z < 1 :=
+  fun z hz => stableSpec_poles_inside den t g hg hs h z hz
+
+/-- the same for `parcor_stable` as repaired (any non-zero leading coefficient) and as coded
+(leading coefficient 1) -/
+theorem stableFixed_poles_inside (den t : List ℝ) (g : ℝ) (hg : g ≠ 0) (hs : stripZeros den = g :: t)
+    (h : parcorStableFixed den = true) :
+    ∀ z : ℂ, evalC den.reverse z = 0 → Complex.normSq z < 1 := by
+  rw [stableFixed_eq_spec den t g hg hs] at h
+  exact schur_cohn_sufficient den t g hg hs h
+
+theorem stableCoded_poles_inside (den t : List ℝ) (hs : stripZeros den = 1 :: t)
+    (h : parcorStableCoded den = true) :
+    ∀ z : ℂ, evalC den.reverse z = 0 → Complex.normSq z < 1 := by
+  rw [stableCoded_eq_spec den t hs] at h
+  exact schur_cohn_sufficient den t 1 one_ne_zero hs h
+
+/-- **C11.5b** order 1, both directions -/
+theorem schur_cohn_order1_partial (a0 a1 : ℝ) (h0 : a0 ≠ 0) (h1 : a1 ≠ 0) :
+    parcorStableSpec [a0, a1] = true ↔
+      ∀ z : ℂ, evalC [a0, a1].reverse z = 0 → Complex.normSq z < 1 := by
+  constructor
+  · exact schur_cohn_sufficient [a0, a1] [a1] a0 h0 (by simp [stripZeros, h1])
+  · intro h; exact order1_converse a0 a1 h0 h1 (by simpa using h)
+
+/-- **C11.5c** order 2, both directions (real double roots, distinct real roots, conjugate pairs) -/
+theorem schur_cohn_order2_partial (a0 a1 a2 : ℝ) (h0 : a0 ≠ 0) (h2 : a2 ≠ 0) :
+    parcorStableSpec [a0, a1, a2] = true ↔
+      ∀ z : ℂ, evalC [a0, a1, a2].reverse z = 0 → Complex.normSq z < 1 := by
+  constructor
+  · exact schur_cohn_sufficient [a0, a1, a2] [a1, a2] a0 h0 (by simp [stripZeros, h2])
+  · intro h; exact order2_converse a0 a1 a2 h0 h2 (by simpa using h)
+
+-- PENDING: the converse for order ≥ 3 (all poles inside ⇒ all |k| < 1).  It needs either Rouché's
+-- theorem or the factorisation of the Blaschke quotient over the roots; Mathlib v4.33 has no
+-- Rouché / Schur–Cohn.  The tie checks it on every generated pole set (Lean verdict vs the
+-- construction).  Full statement:
+def SchurCohnFull : Prop :=
+  ∀ (den t : List ℝ) (g : ℝ), g ≠ 0 → stripZeros den = g :: t →
+    (parcorStableSpec den = true ↔ ∀ z : ℂ, evalC den.reverse z = 0 → Complex.normSq z < 1)
+
 /-! ### non-vacuity -/
+example : parcorStableSpec ([2, -1] : List ℝ) = true :=
+  (schur_cohn_order1_partial 2 (-1) (by norm_num) (by norm_num)).mpr (by
+    intro z hz
+    have : z = ((1 / 2 : ℝ) : ℂ) := by
+      simp only [List.reverse_cons, List.reverse_nil, List.nil_append, List.cons_append,
+        evalC_cons, evalC_nil] at hz
+      push_cast at hz ⊢
+      linear_combination (1 / 2 : ℂ) * hz
+    rw [this, Complex.normSq_ofReal]; norm_num)
 example : parcorCoded (1 : Rat) (stepUp [1/2, -1/3, 1/5]) = ([1/5, -1/3, 1/2], false) := by decide +kernel
 example : parcorSpec ([2, 1, 1/2, 1/5] : List Rat) = ([1/10, 20/99, 95/238], false) := by decide +kernel
 example : parcorCoded (1 : Rat) [2, 1, 1/2, 1/5] = ([1/5, 5/16, 5/7], false) := by decide +kernel
